@@ -25,7 +25,12 @@ Section KV.
 
   Lemma rel_init : rel [] [].
   Proof.
-    constructor; cbn; try (intros; contradiction); try constructor. intros; reflexivity.
+    constructor; cbn.
+    - intros; reflexivity.
+    - intros k [].
+    - constructor.
+    - intros n [].
+    - constructor.
   Qed.
 
   Lemma rel_set : forall m s n v, rel m s -> In n ns -> rel (aset keqb (key n) v m) (sset n v s).
@@ -151,14 +156,14 @@ Proof.
   pose proof (eg_key _ _ _ G n Hn) as Hk. unfold key_ok in Hk. apply negb_true_iff in Hk.
   split.
   - unfold is_dir. rewrite Hk. cbn [orb].
-    destruct (existsb _ (akeys m)) eqn:E; [|reflexivity]. exfalso.
+    match goal with |- ?ex = false => destruct ex eqn:E end; [|reflexivity]. exfalso.
     apply existsb_exists in E. destruct E as [k [Hin Hp]].
     destruct (rel_keys _ _ _ _ _ R k Hin) as [n0 [Hn0 [-> _]]].
     destruct (fs_apart c n n0 (eg_apart _ _ _ G n n0 Hn Hn0)) as [<-|[_ [H _]]].
     + rewrite prefixb_longer in Hp. discriminate.
     + congruence.
   - unfold under_file.
-    destruct (existsb _ (akeys m)) eqn:E; [|reflexivity]. exfalso.
+    match goal with |- ?ex = false => destruct ex eqn:E end; [|reflexivity]. exfalso.
     apply existsb_exists in E. destruct E as [k [Hin Hp]].
     destruct (rel_keys _ _ _ _ _ R k Hin) as [n0 [Hn0 [-> _]]].
     destruct (fs_apart c n n0 (eg_apart _ _ _ G n n0 Hn Hn0)) as [<-|[_ [_ H]]].
